@@ -151,6 +151,7 @@ def main():
                           "trace_len": len(events)}, indent=1, default=str))
         for e in r.log[-60:]:
             print("  ", e)
+        print("waiting:", getattr(r, "waiting", None), "deadlock:", r.deadlock)
         sys.exit(1 if (stats.violations or stats.divergences) else 0)
     mod = importlib.import_module(a.module) if False else None
     if a.shard is not None:
